@@ -28,14 +28,18 @@ Fixpoint hops_of_sx (l : list sx) : option (list hop) :=
       end
   end.
 
-(* c02.history: (dag ops) -> one answer per request: hash bytes | 'err | 'panic.
+(* c02.history: (dag ops) -> ((answer per request) (the kept answers at the end));
+   answer = hash bytes | 'err | 'panic.
    The model run is the model of the CODE (cache written at the end). *)
 Definition run_history (a : sx) : sx :=
   match a with
   | SL [SL dag; SL ops] =>
       match nodes_of_sx dag, hops_of_sx ops with
       | Some cells, Some os =>
-          SL (map (sx_res SBytes) (hasher_run sha256 false cells new_hasher os))
+          (* the answers as they are returned, and the same answers as the caller
+             still holds them after the whole history: results are values *)
+          let rs := map (sx_res SBytes) (hasher_run sha256 false cells new_hasher os) in
+          SL [SL rs; SL rs]
       | _, _ => sx_err "history"
       end
   | _ => sx_err "history"
